@@ -188,6 +188,56 @@ Theorem C08_normalise_wf : forall ext v v', wf_vlr ext v = true -> normalise v =
 Proof. exact normalise_wf. Qed.
 Print Assumptions C08_normalise_wf.
 
+(* ---------------- the file around the lists ---------------- *)
+(* A file = header (hs bytes; of it, the four fields that locate the records), VLRs, points, EVLRs. The writer is
+   given a header of ANY origin and history (stale: e.g. read from a file that had EVLRs, or used for an earlier
+   write), the two lists as they are now (after whatever insertions, removals, reorderings: any lists), any point
+   bytes; EVLRs handed over or not (None = write_evlrs never called). What is read back are those two lists, in
+   order, the EVLR list empty when none were written. *)
+Theorem C08_file_roundtrip : forall hs v14 stale vl pts evl loc body,
+  forallb (wf_vlr false) vl = true -> forallb (wf_vlr true) (opt_list evl) = true ->
+  write_file hs v14 stale vl pts evl = Ok (loc, body) ->
+  read_file hs v14 loc body
+  = Ok (map vlr_factory vl, if v14 then Some (map vlr_factory (opt_list evl)) else None).
+Proof. exact file_roundtrip. Qed.
+Print Assumptions C08_file_roundtrip.
+
+(* nothing of the header's past survives in the file written *)
+Theorem C08_file_ignores_stale : forall hs v14 s1 s2 vl pts evl,
+  write_file hs v14 s1 vl pts evl = write_file hs v14 s2 vl pts evl.
+Proof. exact file_ignores_stale. Qed.
+Print Assumptions C08_file_ignores_stale.
+
+(* VLR bytes right after the header, EVLR bytes at the end, counted and located by the header; no EVLRs: 0 at 0 *)
+Theorem C08_file_layout : forall hs v14 stale vl pts evl loc body,
+  write_file hs v14 stale vl pts evl = Ok (loc, body) ->
+  exists vb eb, enc_vlrs false vl = Ok vb /\ enc_vlrs true (opt_list evl) = Ok eb
+    /\ body = vb ++ pts ++ eb /\ l_nvlr loc = len vl /\ l_offset loc = hs + len vb
+    /\ (opt_list evl = [] \/ v14 = false -> l_nevlr loc = 0 /\ l_estart loc = 0)
+    /\ (opt_list evl <> [] -> v14 = true /\ l_nevlr loc = len (opt_list evl) /\ l_estart loc = hs + len vb + len pts).
+Proof. exact file_layout. Qed.
+Print Assumptions C08_file_layout.
+
+(* what a user got from a file, written again (through a header of any origin) and read again *)
+Theorem C08_file_next_generation : forall hs stale vl el vl' el' pts loc body,
+  forallb (wf_vlr false) vl = true -> forallb (wf_vlr true) el = true ->
+  kv_records (map vlr_factory vl) = Ok vl' -> kv_records (map vlr_factory el) = Ok el' ->
+  forallb (wf_vlr false) vl' = true -> forallb (wf_vlr true) el' = true ->
+  write_file_known hs true stale (map vlr_factory vl) pts (Some (map vlr_factory el)) = Ok (loc, body) ->
+  read_file hs true loc body = Ok (map vlr_factory vl, Some (map vlr_factory el)).
+Proof. exact file_next_generation. Qed.
+Print Assumptions C08_file_next_generation.
+
+(* the statements of LasWriter.__init__ that touch its header, and of LasWriter.write_evlrs, extracted from the
+   source on this run, are the ones write_file describes (deepcopy, LasZipVlr popped, partial_reset, ...; the two
+   EVLR fields set under len(evlrs) > 0): the writer does nothing else to the record lists *)
+Theorem C08_writer_ops_modelled : writer_header_ops = modelled_writer_header_ops
+  /\ write_evlrs_version_guard = "self.header.version.minor < 4"%string
+  /\ write_evlrs_guard = "len(evlrs) > 0"%string
+  /\ write_evlrs_ops = modelled_write_evlrs_ops.
+Proof. exact writer_ops_modelled. Qed.
+Print Assumptions C08_writer_ops_modelled.
+
 (* a lookup with a dirty name field and a repeated class id, a WKT without its NUL, an unknown record and a
    GeoAscii record that is not ASCII, as VLRs: read in order; the first two parsed and normalised, the others raw *)
 Example C08_nonvacuous :
@@ -204,5 +254,14 @@ Example C08_nonvacuous :
   /\ kv_records ks = Ok [mkVlr UID_LASF_Spec 0 [100] ([5; 99] ++ zeros 14 ++ [6; 98] ++ zeros 14);
                          mkVlr UID_LASF_Projection 2112 [] [97; 98; 0]; v3; v4]
   /\ is_ok (enc_vlrs false [mkVlr [88] 7 [] (zeros (Z.to_nat 65536))]) = false
-  /\ is_ok (enc_vlrs true [mkVlr [88] 7 [] (zeros (Z.to_nat 65536))]) = true.
+  /\ is_ok (enc_vlrs true [mkVlr [88] 7 [] (zeros (Z.to_nat 65536))]) = true
+  (* a 1.4 file written through a header that came from a file with 2 EVLRs at offset 1000, all EVLRs removed:
+     the new header announces none and an empty list is read; with one EVLR: it is found behind the points *)
+  /\ write_file 375 true (mkLoc 9 999 2 1000) [v3] [7; 7; 7] (Some [])
+     = Ok (mkLoc 1 (375 + 57) 0 0, match enc_vlrs false [v3] with Ok b => b ++ [7; 7; 7] | Err _ => [] end)
+  /\ match write_file 375 true (mkLoc 9 999 2 1000) [v1; v3] [7; 7; 7] (Some [v2]) with
+     | Ok (loc, body) => l_nevlr loc = 1 /\ l_estart loc = len body + 375 - 62
+         /\ read_file 375 true loc body = Ok ([List.hd (KRaw v3) ks; KRaw v3], Some [KKnown "WktCoordinateSystemVlr" UID_LASF_Projection 2112 [] (CWkt [97; 98])])
+     | Err _ => False
+     end.
 Proof. vm_compute. repeat split; reflexivity. Qed.
